@@ -11,6 +11,7 @@ import Driver.C11
 import Driver.C12
 import Driver.C17
 import Driver.C15
+import Driver.Pair
 open Lean Driver
 
 def dispatch (j : Json) : R Json := do
@@ -31,6 +32,7 @@ def dispatch (j : Json) : R Json := do
   | "c12" => Driver.C12.handle op j
   | "c17" => Driver.C17.handle op j
   | "c15" => Driver.C15.handle op j
+  | "pair" => Driver.Pair.handle op j
   | "ping" => return obj [("pong", Json.bool true)]
   | _ => throw s!"unknown op prefix {pfx}"
 
